@@ -26,7 +26,7 @@ func init() {
     leaf b { type int32; default 7; }
     leaf s { config false; type int32; }
     container d { leaf x { type string; } leaf y { type int32; default 5; }
-      container e { leaf z { type string; } } }
+      container e { leaf z { type string; } leaf z2 { type string; } } }
     container o { config false; leaf p { type string; } }
   }
   list l { key k; leaf k { type string; } leaf v { type int32; default 3; } leaf w { config false; type string; }
@@ -51,7 +51,7 @@ type c07Case struct {
 }
 
 var c07Trees = map[string]string{
-	"full": `{"t":"a","st":"b","c":{"a":"a","b":7,"s":1,"d":{"x":"a","y":5,"e":{"z":"a"}},"o":{"p":"a"}},
+	"full": `{"t":"a","st":"b","c":{"a":"a","b":7,"s":1,"d":{"x":"a","y":5,"e":{"z":"a","z2":"b"}},"o":{"p":"a"}},
 	  "l":[{"k":"a","v":3,"w":"a","m":{"z":"a"},"n":[{"j":1,"u":"a"},{"j":2,"u":"b"},{"j":3,"u":"c"}]},{"k":"b","v":1},{"k":"c","v":2,"n":[{"j":1,"u":"a"}]},{"k":"d","w":"b"}],
 	  "r":[{"k":"a","q":"a"},{"k":"b","q":"b"}]}`,
 	"mid": `{"c":{"b":1,"d":{"y":5}},"l":[{"k":"a","v":3,"n":[{"j":1,"u":"a"},{"j":2,"u":"b"}]},{"k":"b","m":{"z":"b"}}]}`,
@@ -106,7 +106,7 @@ type fieldExpr struct {
 
 func fieldExprs(defs []meta.Definition) []fieldExpr {
 	var paths [][]string
-	relPaths(defs, nil, 3, &paths)
+	relPaths(defs, nil, 4, &paths)
 	var out []fieldExpr
 	j := func(p []string) string { return strings.Join(p, "/") }
 	for _, p := range paths {
